@@ -145,6 +145,9 @@ class RibRun(object):
         w = self.w
         if first:
             w.apply({'k': 'boot'})
+        elif getattr(self, 'stopped', False):
+            self.stopped = False
+            w.apply({'k': 'start'})
         else:
             dc = w.timer('idle')
             w.nticks = int(round(dc.time / w.tick))
@@ -226,6 +229,14 @@ def replay_walk(g, walk, tid):
         elif k == 'drop':
             if not up:
                 continue
+            # "the session drops": by the peer (TCP lost), or by the agent itself - it answers a frame with a bad marker with a
+            # NOTIFICATION and closes, or the operator stops the peering - and the TCP close completes afterwards
+            how = (tid + i) % 3
+            if how == 1:
+                w.apply({'k': 'data', 'c': run.c, 'hex': '00' * 16 + '001304'})
+            elif how == 2:
+                w.apply({'k': 'stop'})
+                run.stopped = True
             w.apply({'k': 'connLost', 'c': run.c})
             up = False
         elif k == 'newsession':
